@@ -97,6 +97,7 @@ partial def eval (p : Prog) (env : Env) (e : Sx) : M Val :=
       | "+", .int x, .int y => pure (.int (x + y))
       | "-", .int x, .int y => pure (.int (x - y))
       | "*", .int x, .int y => pure (.int (x * y))
+      | "/", .int x, .int y => if y == 0 then stuck "division by zero" else pure (.int (Int.tdiv x y))
       | "+", .str x, .str y => pure (.str (x ++ y))
       | "<", .int x, .int y => pure (.bool (x < y))
       | ">", .int x, .int y => pure (.bool (x > y))
